@@ -10,6 +10,12 @@ CLAIMS = {
                   'and must be thread_local or immutable; ThreadLocal storage/first-init/Clear and encoder statelessness are checked on every '
                   'instance. A race between operations on distinct objects needs shared mutable state, of which the inventory shows none.',
              ref='§4 C19'),
+ 'C10': dict(technique='abstract interpretation of status locals (Untested/Ok/Failed) over every function instance; rules SD1-SD4',
+             text='Every status-producing call site under include/nop (about 240 file:line:col sites) is a fault position; the interpreter proves per pattern '
+                  'that the status is consumed, tested before the next I/O step, that the operation stops on failure and that the failure is returned '
+                  'verbatim. Pattern-level verdicts do not depend on the instantiation, so nested containers, later elements, padding and every type '
+                  'combination are covered. Prepare-failure => nothing written is SD2 on SerializerCommon::Write.',
+             ref='§3 E3, §4 C10'),
 }
 NA = {}
 props = [json.loads(l) for l in open(os.path.join(VERIF, 'properties.jsonl'))]
